@@ -1104,6 +1104,14 @@ fn main() {
             cases.push(gen_case(&mut r, i));
         }
         if a.thorough() {
+            // random threads larger than the tail windows: runs, replies, checkpoints between 300 KiB / 1 MiB messages
+            for _ in 0..4 {
+                let n = r.range(24, 40);
+                let ops = gen_ops(&mut r, n, &[300_000, 1 << 20, 5, 300_000], false);
+                let nmsg = ops.iter().filter(|o| matches!(o, Op::Msg { .. })).count() as u64;
+                let anchors = vec![Anchor::Msg(0), Anchor::Msg(1), Anchor::Msg(r.below(nmsg.max(1))), Anchor::Last];
+                cases.push(Case { ops, anchors, later: gen_later(&mut r, nmsg), faults: vec![(*r.pick(&TARGETS), FaultKind::Delete)], big: true, race: vec![] });
+            }
             // every single fault on a rich fixed history
             let base = corpus_cases().remove(2);
             for t in TARGETS {
